@@ -50,13 +50,13 @@ var props = map[string]propCfg{
 		Thor:  tierCfg{Checks: 2500, Shards: 12, Timeout: d("90m"), ShrinkTime: d("180s")}},
 	"C14": {Level: "translation_validation",
 		Quick: tierCfg{Checks: 3, Shards: 4, Timeout: d("15m"), ShrinkTime: d("45s")},
-		Thor:  tierCfg{Checks: 12, Shards: 12, Timeout: d("60m"), ShrinkTime: d("180s")}},
+		Thor:  tierCfg{Checks: 20, Shards: 12, Timeout: d("60m"), ShrinkTime: d("180s")}},
 	"C09": {Level: "translation_validation",
 		Quick: tierCfg{Checks: 4, Shards: 8, Timeout: d("15m"), ShrinkTime: d("45s")},
-		Thor:  tierCfg{Checks: 12, Shards: 12, Timeout: d("60m"), ShrinkTime: d("180s")}},
+		Thor:  tierCfg{Checks: 30, Shards: 12, Timeout: d("60m"), ShrinkTime: d("180s")}},
 	"C07": {Level: "exploration",
 		Quick: tierCfg{Checks: 60, Shards: 8, Timeout: d("15m"), ShrinkTime: d("45s")},
-		Thor:  tierCfg{Checks: 250, Shards: 12, Timeout: d("60m"), ShrinkTime: d("180s")}},
+		Thor:  tierCfg{Checks: 600, Shards: 12, Timeout: d("60m"), ShrinkTime: d("180s")}},
 	"C03": {Level: "exploration",
 		Quick: tierCfg{Checks: 12, Shards: 6, Timeout: d("15m"), ShrinkTime: d("45s")},
 		Thor:  tierCfg{Checks: 150, Shards: 12, Timeout: d("60m"), ShrinkTime: d("180s")}},
@@ -65,16 +65,16 @@ var props = map[string]propCfg{
 		Thor:  tierCfg{Checks: 15, Shards: 12, Timeout: d("60m"), ShrinkTime: d("180s")}},
 	"C12": {Level: "translation_validation",
 		Quick: tierCfg{Checks: 3, Shards: 4, Timeout: d("15m"), ShrinkTime: d("45s")},
-		Thor:  tierCfg{Checks: 12, Shards: 12, Timeout: d("60m"), ShrinkTime: d("180s")}},
+		Thor:  tierCfg{Checks: 30, Shards: 12, Timeout: d("60m"), ShrinkTime: d("180s")}},
 	"C10": {Level: "translation_validation",
 		Quick: tierCfg{Checks: 3, Shards: 4, Timeout: d("15m"), ShrinkTime: d("45s")},
-		Thor:  tierCfg{Checks: 12, Shards: 12, Timeout: d("60m"), ShrinkTime: d("180s")}},
+		Thor:  tierCfg{Checks: 24, Shards: 12, Timeout: d("60m"), ShrinkTime: d("180s")}},
 	"C11": {Level: "translation_validation",
 		Quick: tierCfg{Checks: 3, Shards: 4, Timeout: d("15m"), ShrinkTime: d("45s")},
-		Thor:  tierCfg{Checks: 12, Shards: 12, Timeout: d("60m"), ShrinkTime: d("180s")}},
+		Thor:  tierCfg{Checks: 30, Shards: 12, Timeout: d("60m"), ShrinkTime: d("180s")}},
 	"C13": {Level: "exploration",
 		Quick: tierCfg{Checks: 3, Shards: 4, Timeout: d("15m"), ShrinkTime: d("45s")},
-		Thor:  tierCfg{Checks: 12, Shards: 12, Timeout: d("60m"), ShrinkTime: d("180s")}},
+		Thor:  tierCfg{Checks: 20, Shards: 12, Timeout: d("60m"), ShrinkTime: d("180s")}},
 	"C08": {Level: "fault_enumeration",
 		Quick: tierCfg{Checks: 3, Shards: 4, Timeout: d("15m"), ShrinkTime: d("45s")},
 		Thor:  tierCfg{Checks: 12, Shards: 12, Timeout: d("60m"), ShrinkTime: d("180s")}},
@@ -86,10 +86,10 @@ var props = map[string]propCfg{
 		Thor:  tierCfg{Checks: 20000, Shards: 12, Timeout: d("40m"), ShrinkTime: d("120s")}},
 	"C20": {Level: "fault_enumeration",
 		Quick: tierCfg{Checks: 600, Shards: 2, Timeout: d("10m"), ShrinkTime: d("30s")},
-		Thor:  tierCfg{Checks: 6000, Shards: 12, Timeout: d("40m"), ShrinkTime: d("120s")}},
+		Thor:  tierCfg{Checks: 12000, Shards: 12, Timeout: d("40m"), ShrinkTime: d("120s")}},
 	"C16": {Level: "model_checking",
 		Quick: tierCfg{Checks: 3000, Shards: 4, Timeout: d("10m"), ShrinkTime: d("30s")},
-		Thor:  tierCfg{Checks: 40000, Shards: 12, Timeout: d("40m"), ShrinkTime: d("120s")}},
+		Thor:  tierCfg{Checks: 80000, Shards: 12, Timeout: d("40m"), ShrinkTime: d("120s")}},
 	"C15": {Level: "model_checking",
 		Quick: tierCfg{Checks: 2500, Shards: 4, Timeout: d("10m"), ShrinkTime: d("30s")},
 		Thor:  tierCfg{Checks: 40000, Shards: 12, Timeout: d("40m"), ShrinkTime: d("120s")}},
